@@ -70,9 +70,36 @@ def main():
         r1 = sh("bash %s %s" % (run, WT), timeout=1800)
         res["demo_mutated_rc"] = r1.returncode
         res["demo_mutated_out"] = (r1.stdout + r1.stderr)[-400:]
-    sh("git -C %s checkout -- ." % WT)
+    CLONE = os.environ.get("SEED_VERIF")       # a private copy of /verif: the checks run there against the patched scratch worktree, /repo and /verif stay untouched
+    if not CLONE:
+        sh("git -C %s checkout -- ." % WT)
     confirmed = res.get("builds_and_126_pass") and res.get("demo_clean_rc") == 0 and res.get("demo_mutated_rc", 0) != 0
     res["confirmed"] = bool(confirmed)
+    if CLONE:
+        res["checks"] = {}
+        try:
+            for pid in pids:
+                t = time.time()
+                c = sh("cd %s && VERIF_REPO=%s python3 tools/check.py %s --tier quick" % (CLONE, WT, pid), timeout=3600)
+                lines = [l[:260] for l in c.stdout.splitlines() if l.startswith(("VIOLATION", "KNOWN-FINDING"))]
+                kinds, what = [], []
+                for l in lines:
+                    if l.startswith("VIOLATION"):
+                        kinds.append("no-failing-input-found" if "no-failing-input-found" in l else "failing-input")
+                        if "replay=" in l:
+                            rp = l.split("replay=")[1].split()[0]
+                            try:
+                                dd = json.load(open(rp))
+                                fi = dd.get("failing_input")
+                                what.append(fi["what"][:200] if fi else "; ".join(b["what"][:120] for b in dd.get("no_longer_checks", [])[:2]))
+                            except Exception:
+                                pass
+                res["checks"][pid] = {"rc": c.returncode, "violations": kinds, "what": what[:3], "wall": round(time.time() - t, 1)}
+        finally:
+            sh("git -C %s checkout -- ." % WT)
+        store(d, name, pids, res, confirmed)
+        print(json.dumps(res, indent=1))
+        return
     # the checks (the evidence files of the clean tree are put back afterwards: evidence is only ever committed from clean runs)
     res["checks"] = {}
     import tempfile
@@ -113,6 +140,11 @@ def main():
             shutil.copy(os.path.join(evbak, f), "/verif/evidence/" + f)
         shutil.rmtree(evbak, ignore_errors=True)
         sh("cd /verif && python3 tools/translate.py > /dev/null")
+    store(d, name, pids, res, confirmed)
+    print(json.dumps(res, indent=1))
+
+
+def store(d, name, pids, res, confirmed):
     out = os.path.join("/verif/seeded", name)
     if confirmed:
         os.makedirs(out, exist_ok=True)
@@ -125,7 +157,6 @@ def main():
                 "checks_run": res["checks"],
                 "detected_by": [p for p, v in res["checks"].items() if v["rc"] != 0]}
         json.dump(meta, open(os.path.join(out, "meta.json"), "w"), indent=1)
-    print(json.dumps(res, indent=1))
 
 
 if __name__ == "__main__":
